@@ -20,6 +20,7 @@ type Mutex struct {
 	native sync.Mutex
 	locked bool
 	owner  int
+	hb     sched.HB
 }
 
 func (m *Mutex) Lock() {
@@ -31,7 +32,7 @@ func (m *Mutex) Lock() {
 	if !s.Active() { // tearing down: never block
 		return
 	}
-	s.Park(&sched.Op{Desc: "Mutex.Lock "+s.ObjName(m), Object: m, Alts: []sched.Alt{{Enabled: func() bool { return !m.locked }}}})
+	s.Park(&sched.Op{Desc: "Mutex.Lock " + s.ObjName(m), Object: m, Code: 1, Alts: []sched.Alt{{Enabled: func() bool { return !m.locked }, HB: &m.hb}}})
 	m.locked, m.owner = true, s.ThreadID()
 }
 
@@ -43,7 +44,7 @@ func (m *Mutex) TryLock() bool {
 	if !s.Active() {
 		return true
 	}
-	s.Yield("Mutex.TryLock "+s.ObjName(m), m)
+	s.YieldOn("Mutex.TryLock "+s.ObjName(m), &m.hb, 2)
 	if m.locked {
 		return false
 	}
@@ -65,6 +66,7 @@ func (m *Mutex) Unlock() {
 		panic("sync: unlock of unlocked mutex")
 	}
 	m.locked = false
+	s.Touch(&m.hb, 3)
 }
 
 // RWMutex ----------------------------------------------------------------------------------------------------------------
@@ -75,6 +77,7 @@ type RWMutex struct {
 	readers int
 	// writersWaiting models Go's writer preference: a pending Lock blocks new readers.
 	writersWaiting int
+	hb             sched.HB
 }
 
 func (m *RWMutex) Lock() {
@@ -87,7 +90,7 @@ func (m *RWMutex) Lock() {
 		return
 	}
 	m.writersWaiting++
-	s.Park(&sched.Op{Desc: "RWMutex.Lock "+s.ObjName(m), Object: m, Alts: []sched.Alt{{Enabled: func() bool { return !m.writer && m.readers == 0 }}}})
+	s.Park(&sched.Op{Desc: "RWMutex.Lock " + s.ObjName(m), Object: m, Code: 4, Alts: []sched.Alt{{Enabled: func() bool { return !m.writer && m.readers == 0 }, HB: &m.hb}}})
 	m.writersWaiting--
 	m.writer = true
 }
@@ -106,6 +109,7 @@ func (m *RWMutex) Unlock() {
 		panic("sync: Unlock of unlocked RWMutex")
 	}
 	m.writer = false
+	s.Touch(&m.hb, 5)
 }
 
 func (m *RWMutex) RLock() {
@@ -121,7 +125,7 @@ func (m *RWMutex) RLock() {
 	// Lock is itself a scheduling point; modelling the preference only removes schedules Go cannot produce... it
 	// could also hide schedules Go *can* produce (reader arrives before the writer announces itself), so readers are
 	// only blocked by a writer that holds the lock.
-	s.Park(&sched.Op{Desc: "RWMutex.RLock "+s.ObjName(m), Object: m, Alts: []sched.Alt{{Enabled: func() bool { return !m.writer }}}})
+	s.Park(&sched.Op{Desc: "RWMutex.RLock " + s.ObjName(m), Object: m, Code: 6, Alts: []sched.Alt{{Enabled: func() bool { return !m.writer }, HB: &m.hb}}})
 	m.readers++
 }
 
@@ -141,6 +145,7 @@ func (m *RWMutex) RUnlock() {
 		panic("sync: RUnlock of unlocked RWMutex")
 	}
 	m.readers--
+	s.Touch(&m.hb, 7)
 }
 
 func (m *RWMutex) TryLock() bool {
@@ -151,7 +156,7 @@ func (m *RWMutex) TryLock() bool {
 	if !s.Active() {
 		return true
 	}
-	s.Yield("RWMutex.TryLock", m)
+	s.YieldOn("RWMutex.TryLock", &m.hb, 8)
 	if m.writer || m.readers > 0 {
 		return false
 	}
@@ -167,7 +172,7 @@ func (m *RWMutex) TryRLock() bool {
 	if !s.Active() {
 		return true
 	}
-	s.Yield("RWMutex.TryRLock", m)
+	s.YieldOn("RWMutex.TryRLock", &m.hb, 9)
 	if m.writer {
 		return false
 	}
@@ -187,6 +192,7 @@ func (r *rlocker) Unlock() { (*RWMutex)(r).RUnlock() }
 type WaitGroup struct {
 	native sync.WaitGroup
 	n      int
+	hb     sched.HB
 }
 
 func (w *WaitGroup) Add(delta int) {
@@ -198,7 +204,7 @@ func (w *WaitGroup) Add(delta int) {
 	if !s.Active() {
 		return
 	}
-	s.Yield(fmt.Sprintf("WaitGroup.Add(%d) %s", delta, s.ObjName(w)), w)
+	s.YieldOn(fmt.Sprintf("WaitGroup.Add(%d) %s", delta, s.ObjName(w)), &w.hb, 10+uint64(int64(delta)+8)%16)
 	w.n += delta
 	if w.n < 0 {
 		panic("sync: negative WaitGroup counter")
@@ -228,7 +234,7 @@ func (w *WaitGroup) Wait() {
 		}
 		return
 	}
-	s.Park(&sched.Op{Desc: "WaitGroup.Wait "+s.ObjName(w), Object: w, Alts: []sched.Alt{{Enabled: func() bool { return w.n == 0 }}}})
+	s.Park(&sched.Op{Desc: "WaitGroup.Wait " + s.ObjName(w), Object: w, Code: 30, Alts: []sched.Alt{{Enabled: func() bool { return w.n == 0 }, HB: &w.hb}}})
 }
 
 // Once -------------------------------------------------------------------------------------------------------------------
